@@ -36,6 +36,9 @@ def check(run):
             b = run.borrow("C08", only=r"cosmetic_filter_cache::CosmeticFilterCache\.(simple_class_rules|simple_id_rules|complex_class_rules|complex_id_rules|misc_generic_selectors)\b",
                            why="each generic-rule store must be serialized from, and restored into, itself")
             run.guard("C17.via.C08.1.state-coverage", cfg, lambda: _C08.rule_coverage(b, F, cfg))
+            from . import C16 as _C16
+            b2 = run.borrow("C16", only=r"\|unhide$", why="the per-site exception set handed to the generic lookup is built from the unhide bins")
+            run.guard("C17.via.C16.2.bin-pairing", cfg, lambda: _C16.rule_pairing(b2, F, cfg))
 
 
 def _store_of(f, t):
